@@ -442,6 +442,7 @@ func TestCheck(t *testing.T) {
 	h.phaseGoAPI(n1)
 	h.phaseJWKHeaderFamilies(n1)
 	h.phaseKidLifecycle(n1)
+	h.phaseKeyCreation()
 	h.scan("go-api")
 	n2 := h.phaseDIDNuts(verbosity, env, namer)
 	h.scan("did-nuts")
